@@ -923,6 +923,740 @@ def incremental_index(tu, f, g, loc, use, idx, base, periods):
     return True, "within 0..period-1 for the periods %s" % ",".join(str(p) for p in periods)
 
 
+# ------------------- lookup index that is not reduced modulo the period at all
+
+# TS 45.002: frame numbers run over one hyperframe, 0 .. 26 * 51 * 2048 - 1 (GSM_TDMA_HYPERFRAME)
+HYPERFRAME = 26 * 51 * 2048
+
+
+def _carith(op, a, b):
+    """_arith with exact (not floating point) truncating division / remainder and bounded shifts"""
+    if op in ("/", "%"):
+        if b == 0:
+            raise ZeroDivisionError()
+        q = abs(a) // abs(b)
+        if (a < 0) != (b < 0):
+            q = -q
+        return q if op == "/" else a - b * q
+    if op in ("<<", ">>") and not 0 <= b <= 64:
+        raise ValueError("shift count")
+    return _arith(op, a, b)
+
+
+def _fit(tu, iv, ty):
+    """interval iv after conversion to the C integer type ty: unchanged when it fits, else the whole range of
+    the type (None for a type the model does not know)"""
+    bt = int_type(tu, ty)
+    if iv is None or bt is None:
+        return None
+    bits, signed = bt
+    if bits == 1:
+        return (0, 1)
+    lo, hi = (-(1 << (bits - 1)), (1 << (bits - 1)) - 1) if signed else (0, (1 << bits) - 1)
+    return iv if lo <= iv[0] and iv[1] <= hi else (lo, hi)
+
+
+def index_interval(tu, loc, n, base, P, depth=0):
+    """Interval (lo, hi) that contains every value the side-effect free integer expression n can take when
+    `<base>->period` is P -- or None (not an expression of the vocabulary).  No assumption enters: an lvalue
+    the function does not define once by a pure expression takes the whole range of its C type, every
+    intermediate result that may leave the range of its C type becomes the whole range of that type (so
+    unsigned wrap-around and narrowing conversions are covered)."""
+    k = kind(n)
+    ks = kids(n)
+    if k in ("ParenExpr", "ConstantExpr") and ks:
+        return index_interval(tu, loc, ks[0], base, P, depth)
+    if k in ("ImplicitCastExpr", "CStyleCastExpr") and ks:
+        a = index_interval(tu, loc, ks[0], base, P, depth)
+        ck = n.get("castKind")
+        if ck in ("LValueToRValue", "NoOp"):
+            return a
+        if ck == "IntegralCast":
+            return _fit(tu, a, n.get("type"))
+        if ck == "IntegralToBoolean":
+            return (0, 1) if a is not None else None
+        return None
+    if k in ("IntegerLiteral", "CharacterLiteral", "UnaryExprOrTypeTraitExpr"):
+        c = tu.fold(n)
+        return (c, c) if c is not None else None
+    if k == "DeclRefExpr":
+        rd = n.get("referencedDecl", {})
+        if rd.get("kind") == "EnumConstantDecl":
+            c = tu.fold(n)
+            return (c, c) if c is not None else None
+        if loc.is_local(n) and not loc.is_param(n) and depth < 6:
+            s = loc.single(n)
+            if s is not None and s[0] is not None and pure(s[0]):
+                return _fit(tu, index_interval(tu, loc, s[0], base, P, depth + 1), n.get("type"))
+        return _fit(tu, (-(1 << 70), 1 << 70), n.get("type"))
+    if k == "MemberExpr":
+        if n.get("name") == "period" and ks and rtext(loc, ks[0]) == base:
+            return (P, P)
+        return _fit(tu, (-(1 << 70), 1 << 70), n.get("type"))
+    if k == "ArraySubscriptExpr":
+        return _fit(tu, (-(1 << 70), 1 << 70), n.get("type"))
+    if k == "UnaryOperator" and ks:
+        op = n.get("opcode")
+        a = index_interval(tu, loc, ks[0], base, P, depth)
+        if op == "*":
+            return _fit(tu, (-(1 << 70), 1 << 70), n.get("type"))
+        if a is None:
+            return None
+        if op == "+":
+            return a
+        if op == "-":
+            return _fit(tu, (-a[1], -a[0]), n.get("type"))
+        if op == "!":
+            return (0, 1)
+        if op == "~":
+            return _fit(tu, (~a[1], ~a[0]), n.get("type"))
+        return None
+    if k == "BinaryOperator" and len(ks) == 2:
+        op = n.get("opcode")
+        if op in ("<", ">", "<=", ">=", "==", "!=", "&&", "||"):
+            return (0, 1)
+        a = index_interval(tu, loc, ks[0], base, P, depth)
+        b = index_interval(tu, loc, ks[1], base, P, depth)
+        if a is None or b is None:
+            return None
+        r = None
+        if op == "+":
+            r = (a[0] + b[0], a[1] + b[1])
+        elif op == "-":
+            r = (a[0] - b[1], a[1] - b[0])
+        elif op == "*":
+            c = [x * y for x in a for y in b]
+            r = (min(c), max(c))
+        elif op == "/" and b[0] > 0:
+            c = [_carith("/", x, y) for x in a for y in b]
+            r = (min(c), max(c))
+        elif op == "%" and b[0] > 0 and a[0] >= 0:
+            r = a if a[1] < b[0] else (0, min(a[1], b[1] - 1))
+        elif op == "&" and a[0] >= 0 and b[0] >= 0:
+            r = (0, min(a[1], b[1]))
+        elif op == ">>" and a[0] >= 0 and 0 <= b[0] and b[1] <= 64:
+            r = (a[0] >> b[1], a[1] >> b[0])
+        if r is None:
+            return _fit(tu, (-(1 << 70), 1 << 70), n.get("type"))
+        return _fit(tu, r, n.get("type"))
+    if k == "ConditionalOperator" and len(ks) == 3:
+        a = index_interval(tu, loc, ks[1], base, P, depth)
+        b = index_interval(tu, loc, ks[2], base, P, depth)
+        if a is None or b is None:
+            return None
+        return (min(a[0], b[0]), max(a[1], b[1]))
+    return None
+
+
+class _Need(Exception):
+    """a 32-bit unsigned input of the function decides something and has no value in the witness yet"""
+
+    def __init__(self, keys):
+        Exception.__init__(self, ",".join(sorted(keys)))
+        self.keys = sorted(keys)
+
+
+class _Stuck(Exception):
+    """this execution path cannot be continued inside the model"""
+
+
+def _unk(deps=(), taint=False):
+    return ("U", frozenset(deps), bool(taint))
+
+
+def _is_unk(v):
+    return isinstance(v, tuple)
+
+
+class WitnessRun:
+    """Execution of ONE function on its statement CFG for ONE layout period P and ONE assignment of values
+    to (some of) the function's inputs -- the search for a frame number with which a frame lookup leaves
+    the table.  Values are exact C integers (conversions applied) or `unknown`; an unknown value records
+    the inputs it was computed from and whether a value of the witness went into it (taint).  Inputs are
+    the by-value parameters and the memory read through pointers / globals (keyed by the canonical text of
+    the lvalue, single-definition pointer locals substituted); `<layout>->period` is P.  Locals -- scalars
+    and the fields of local structs -- are kept exactly; a local whose address is handed to a call is
+    unknown afterwards.  A branch condition with an exact value is followed; one that is unknown and
+    untainted is free (both successors, breadth first); one that is unknown but computed from witness
+    values ends the path (nothing may be concluded from it) -- unless it depends on 32-bit unsigned inputs
+    that have no value yet: then the caller is asked to extend the witness by them (_Need).  The run stops
+    at the first arrival at the lookup where the index is an exact value outside 0..P-1."""
+
+    BUDGET = 6000
+
+    def __init__(self, tu, f, g, loc, base, P, valuation, use_node, use_expr, shared):
+        self.tu, self.f, self.g, self.loc, self.base, self.P = tu, f, g, loc, base, P
+        self.val = valuation
+        self.use_node, self.use_expr = use_node, use_expr
+        self.S = shared            # caches that do not depend on P / the valuation
+        self.stuck = []
+
+    # ---- static facts
+    def constlike(self, n):
+        """the value of n does not depend on the inputs: literals, enumerators, sizeof, the layout's period"""
+        c = self.S["constlike"].get(id(n))
+        if c is None:
+            k = kind(n)
+            if k in ("IntegerLiteral", "CharacterLiteral", "UnaryExprOrTypeTraitExpr"):
+                c = True
+            elif k == "DeclRefExpr":
+                c = n.get("referencedDecl", {}).get("kind") == "EnumConstantDecl"
+            elif k == "MemberExpr":
+                c = self.is_period(n)
+            elif k in ("CallExpr", "StmtExpr", "ArraySubscriptExpr", "StringLiteral") or not kids(n):
+                c = False
+            else:
+                c = all(self.constlike(x) for x in kids(n))
+            self.S["constlike"][id(n)] = c
+        return c
+
+    def key(self, n):
+        r = self.S["key"].get(id(n))
+        if r is None:
+            r = self.S["key"][id(n)] = rtext(self.loc, n)
+        return r
+
+    def is_period(self, n):
+        r = self.S["period"].get(id(n))
+        if r is None:
+            r = self.S["period"][id(n)] = bool(kind(n) == "MemberExpr" and n.get("name") == "period" and kids(n) and
+                                               rtext(self.loc, kids(n)[0]) == self.base)
+        return r
+
+    def local_path(self, n):
+        """(declaration id, 'a.b') for an lvalue that is a (field of a) local variable of the function, else None"""
+        path = []
+        n = strip(n)
+        while kind(n) == "MemberExpr" and not n.get("isArrow") and kids(n):
+            path.append(n.get("name"))
+            n = strip(kids(n)[0])
+        i = Locals._ref(n) if kind(n) == "DeclRefExpr" else None
+        if i is None or i not in self.loc.decl:
+            return None
+        return i, ".".join(reversed(path))
+
+    def record_of(self, ty):
+        for q in (ty.get("desugaredQualType", ""), ty.get("qualType", "")):
+            m = re.match(r"^(?:const\s+|volatile\s+)*struct\s+(\w+)\s*$", q)
+            if m and m.group(1) in self.tu.records:
+                return [c for c in kids(self.tu.records[m.group(1)]) if kind(c) == "FieldDecl"]
+        return None
+
+    # ---- memory
+    def taint_of(self, v, expr):
+        """does the value v of expr carry information about the witness"""
+        if _is_unk(v):
+            return v[2]
+        return not self.constlike(expr)
+
+    def join(self, pairs):
+        """unknown value computed from the (value, expression) pairs"""
+        deps, t = frozenset(), False
+        for v, x in pairs:
+            if _is_unk(v):
+                deps |= v[1]
+            t = t or self.taint_of(v, x)
+        return _unk(deps, t)
+
+    def havocked(self, key, st):
+        """was the memory `key` names handed to a call (through a pointer to non-const / as a global)"""
+        for kk in st:
+            if kk[0] == "hv" and (kk[1] == "*" or key == kk[1] or key.startswith(kk[1] + "->") or
+                                  key.startswith(kk[1] + ".") or key.startswith(kk[1] + "[")):
+                return True
+        return False
+
+    def input_value(self, key, ty):
+        if key in self.val:
+            return cwrap(self.tu, self.val[key], ty)
+        self.S["itype"].setdefault(key, int_type(self.tu, ty))
+        return _unk((key,))
+
+    def read(self, n, st):
+        """value of the lvalue n"""
+        n = strip(n)
+        k = kind(n)
+        if k == "MemberExpr" and self.is_period(n):
+            return self.P
+        lp = self.local_path(n)
+        if lp is not None:
+            i, path = lp
+            d = self.loc.decl[i]
+            if i in self.S["escaped"] or d.get("storageClass") == "static":
+                return _unk((), True)
+            v = st.get((i, path))
+            if v is not None:
+                return v
+            if not path and kind(d) == "ParmVarDecl":
+                if int_type(self.tu, d.get("type")) is None:
+                    return _unk()           # a pointer / struct parameter: free, carries nothing
+                return self.input_value(d.get("name"), d.get("type"))
+            return _unk((), True)           # not initialised / a whole struct / havocked
+        if k == "DeclRefExpr":
+            rd = n.get("referencedDecl", {})
+            if rd.get("kind") in ("VarDecl", "ParmVarDecl"):
+                c = self.tu.fold(n)
+                if c is not None:
+                    return c
+                if int_type(self.tu, n.get("type")) is None:
+                    return _unk()
+                v = st.get(("m", rd.get("name")))
+                if v is not None:
+                    return v
+                if ("hv", "*g") in st:
+                    return _unk((), True)
+                return self.input_value(rd.get("name"), n.get("type"))
+            return _unk()
+        if k == "MemberExpr" and kids(n):
+            b = self.ev(kids(n)[0], st)
+            if _is_unk(b) and b[2]:
+                return _unk(b[1], True)
+            key = self.key(n)
+            v = st.get(("m", key))
+            if v is not None:
+                return v
+            if int_type(self.tu, n.get("type")) is None:
+                return _unk(b[1] if _is_unk(b) else ())
+            if self.havocked(key, st):
+                return _unk((), True)
+            return self.input_value(key, n.get("type"))
+        if k == "ArraySubscriptExpr" and len(kids(n)) == 2:
+            a, b = self.ev(kids(n)[0], st), self.ev(kids(n)[1], st)
+            r = self.join([(b, kids(n)[1])])
+            return _unk(r[1] | (a[1] if _is_unk(a) else frozenset()), r[2] or (_is_unk(a) and a[2]))
+        if k == "UnaryOperator" and n.get("opcode") == "*" and kids(n):
+            a = self.ev(kids(n)[0], st)
+            return a if _is_unk(a) else _unk()
+        self.ev(n, st)
+        return _unk((), True)
+
+    def write(self, n, v, st):
+        n = strip(n)
+        lp = self.local_path(n)
+        if lp is not None:
+            i, path = lp
+            if not path:
+                for kk in [kk for kk in st if kk[0] == i]:
+                    del st[kk]
+            st[(i, path)] = v
+            return
+        k = kind(n)
+        if k == "MemberExpr" and kids(n):
+            b = self.ev(kids(n)[0], st)
+            if not (_is_unk(b) and b[2]):
+                st[("m", self.key(n))] = v
+            return
+        if k == "DeclRefExpr":
+            st[("m", n.get("referencedDecl", {}).get("name"))] = v
+            return
+        # a store through a computed address: evaluated for its side effects; assumed not to alias the inputs
+        self.ev(n, st)
+
+    def havoc(self, i, st):
+        for kk in [kk for kk in st if kk[0] == i]:
+            del st[kk]
+        st[(i, "")] = _unk((), True)
+
+    # ---- expressions
+    def ev(self, n, st):
+        tu = self.tu
+        k = kind(n)
+        ks = kids(n)
+        if k in ("ParenExpr", "ConstantExpr") and ks:
+            return self.ev(ks[0], st)
+        if k in ("ImplicitCastExpr", "CStyleCastExpr") and ks:
+            ck = n.get("castKind")
+            if ck == "LValueToRValue":
+                return self.read(ks[0], st)
+            a = self.ev(ks[0], st)
+            if _is_unk(a):
+                return a
+            if ck == "IntegralCast":
+                return cwrap(tu, a, n.get("type"))
+            if ck in ("IntegralToBoolean", "PointerToBoolean"):
+                return int(a != 0)
+            if ck in ("NoOp", "NullToPointer", "BitCast", "IntegralToPointer", "PointerToIntegral"):
+                return a
+            if ck == "ToVoid":
+                return _unk()
+            return _unk((), not self.constlike(ks[0]))
+        if k in ("IntegerLiteral", "CharacterLiteral", "UnaryExprOrTypeTraitExpr"):
+            c = tu.fold(n)
+            return c if c is not None else _unk()
+        if k == "DeclRefExpr":
+            rd = n.get("referencedDecl", {})
+            if rd.get("kind") == "EnumConstantDecl":
+                c = tu.fold(n)
+                return c if c is not None else _unk()
+            if rd.get("kind") == "FunctionDecl":
+                return _unk()
+            # an lvalue that is not converted to an rvalue here (operand of &, array that decays, ...)
+            return _unk()
+        if k in ("MemberExpr", "ArraySubscriptExpr"):
+            # lvalue context (address computation): side effects of the operands only
+            return self.join([(self.ev(c, st), c) for c in ks])
+        if k == "UnaryOperator" and ks:
+            op = n.get("opcode")
+            if op in ("++", "--"):
+                old = self.read(ks[0], st)
+                if _is_unk(old):
+                    new = _unk(old[1], True)
+                else:
+                    new = cwrap(tu, old + (1 if op == "++" else -1), strip(ks[0]).get("type"))
+                self.write(ks[0], new, st)
+                return old if n.get("isPostfix") else new
+            if op == "&":
+                return self.ev(ks[0], st)
+            if op == "*":
+                return self.read(n, st)
+            a = self.ev(ks[0], st)
+            if _is_unk(a):
+                return a
+            if op == "-":
+                return cwrap(tu, -a, n.get("type"))
+            if op == "+":
+                return a
+            if op == "~":
+                return cwrap(tu, ~a, n.get("type"))
+            if op == "!":
+                return int(not a)
+            return _unk((), True)
+        if k == "BinaryOperator" and len(ks) == 2:
+            op = n.get("opcode")
+            l, r = ks
+            if op == "=":
+                v = self.ev(r, st)
+                self.write(l, v, st)
+                return v
+            if op == ",":
+                self.ev(l, st)
+                return self.ev(r, st)
+            if op in ("&&", "||"):
+                a = self.ev(l, st)
+                if not _is_unk(a):
+                    if bool(a) == (op == "||"):
+                        return int(op == "||")
+                    b = self.ev(r, st)
+                    return b if _is_unk(b) else int(bool(b))
+                if not pure(r, calls_ok=False):
+                    if a[2] or self.valuable(a[1]):
+                        return self.undecided(a, l)
+                    raise _Stuck("`%s` has side effects under the unknown condition `%s`" % (ctext(r)[:40], ctext(l)[:40]))
+                b = self.ev(r, st)
+                if not _is_unk(b):
+                    if bool(b) == (op == "||"):
+                        return int(op == "||")
+                    return a
+                return _unk(a[1] | b[1], a[2] or b[2])
+            a, b = self.ev(l, st), self.ev(r, st)
+            if _is_unk(a) or _is_unk(b):
+                return self.join([(a, l), (b, r)])
+            try:
+                v = _carith(op, a, b)
+            except (ZeroDivisionError, ValueError, OverflowError):
+                raise _Stuck("undefined arithmetic in `%s`" % ctext(n)[:50])
+            return v if op in ("<", ">", "<=", ">=", "==", "!=") else cwrap(tu, v, n.get("type"))
+        if k == "CompoundAssignOperator" and len(ks) == 2:
+            l, r = ks
+            old, b = self.read(l, st), self.ev(r, st)
+            if _is_unk(old) or _is_unk(b):
+                deps = (old[1] if _is_unk(old) else frozenset()) | (b[1] if _is_unk(b) else frozenset())
+                new = _unk(deps, True)
+            else:
+                try:
+                    v = _carith(n.get("opcode")[:-1], old, b)
+                except (ZeroDivisionError, ValueError, OverflowError):
+                    raise _Stuck("undefined arithmetic in `%s`" % ctext(n)[:50])
+                new = cwrap(tu, cwrap(tu, v, n.get("computeResultType") or n.get("type")), n.get("type"))
+            self.write(l, new, st)
+            return new
+        if k == "ConditionalOperator" and len(ks) == 3:
+            c = self.ev(ks[0], st)
+            if not _is_unk(c):
+                return self.ev(ks[1] if c else ks[2], st)
+            if c[2] or self.valuable(c[1]):
+                return self.undecided(c, ks[0])
+            if not (pure(ks[1]) and pure(ks[2])):
+                raise _Stuck("`%s` has side effects under an unknown condition" % ctext(n)[:50])
+            x, y = self.ev(ks[1], st), self.ev(ks[2], st)
+            if not _is_unk(x) and not _is_unk(y) and x == y:
+                return x
+            deps = c[1] | (x[1] if _is_unk(x) else frozenset()) | (y[1] if _is_unk(y) else frozenset())
+            return _unk(deps, self.taint_of(x, ks[1]) or self.taint_of(y, ks[2]))
+        if k == "CallExpr" and ks:
+            vals = []
+            for a in ks[1:]:
+                vals.append((self.ev(a, st), a))
+                s = strip(a, casts=True)
+                tgt = None
+                if kind(s) == "UnaryOperator" and s.get("opcode") == "&":
+                    tgt = self.local_path(kids(s)[0])
+                elif kind(s) == "DeclRefExpr" and "[" in s.get("type", {}).get("qualType", ""):
+                    tgt = self.local_path(s)
+                if tgt is not None:
+                    self.havoc(tgt[0], st)
+                    continue
+                # memory the callee may write through a pointer to non-const: no longer an input of the witness
+                qt = s.get("type", {}).get("qualType", "")
+                if "*" in qt and not re.match(r"^\s*const\b[^*]*\*\s*(const)?\s*$", qt):
+                    if kind(s) == "UnaryOperator" and s.get("opcode") == "&":
+                        s = strip(kids(s)[0])
+                    if pure(s):
+                        st[("hv", self.key(s))] = 1
+            # globals may be written by any callee
+            st[("hv", "*g")] = 1
+            return self.join(vals)
+        if k in ("StmtExpr", "GCCAsmStmt", "AsmStmt"):
+            raise _Stuck("%s is outside the model" % k)
+        if k == "InitListExpr":
+            for c in ks:
+                self.ev(c, st)
+            return _unk((), True)
+        if k in ("StringLiteral", "ImplicitValueInitExpr", "OffsetOfExpr", "PredefinedExpr"):
+            return _unk()
+        r = self.join([(self.ev(c, st), c) for c in ks if isinstance(c, dict) and c.get("kind")])
+        return _unk(r[1], True)
+
+    def valuable(self, deps):
+        return [d for d in deps if d not in self.val and self.S["itype"].get(d) == (32, False)]
+
+    def undecided(self, v, expr, what="the outcome of"):
+        """an unknown value decides: extend the witness, or give the path up"""
+        want = self.valuable(v[1])
+        if want:
+            raise _Need(want)
+        raise _Stuck("%s `%s` %s" % (what, ctext(expr)[:50], (
+            "depends on the witness in a way the model cannot evaluate" if v[2] or not v[1] else
+            "depends on %s, which the model gives no value" % ", ".join("`%s`" % d for d in sorted(v[1])[:3]))))
+
+    # ---- statements
+    def exec_stmt(self, a, st):
+        k = kind(a)
+        if k == "DeclStmt":
+            for vd in kids(a):
+                if kind(vd) != "VarDecl" or vd.get("storageClass") == "static":
+                    continue
+                i = vd["id"]
+                for kk in [kk for kk in st if kk[0] == i]:
+                    del st[kk]
+                init = [c for c in kids(vd) if "Comment" not in (kind(c) or "") and not (kind(c) or "").endswith("Attr")]
+                if not init:
+                    continue
+                fields = self.record_of(vd.get("type", {}))
+                il = init[0]
+                if fields is not None and kind(il) == "InitListExpr" and "array_filler" not in il:
+                    members = [c for c in il.get("inner", []) if c]
+                    if len(members) != len(fields):
+                        self.ev(il, st)
+                        continue
+                    for fd, m in zip(fields, members):
+                        if kind(m) == "ImplicitValueInitExpr":
+                            if int_type(self.tu, fd.get("type")) is not None:
+                                st[(i, fd.get("name"))] = 0
+                        elif kind(m) == "InitListExpr":
+                            self.ev(m, st)
+                        else:
+                            st[(i, fd.get("name"))] = self.ev(m, st)
+                elif fields is not None or "[" in vd.get("type", {}).get("qualType", ""):
+                    self.ev(il, st)
+                else:
+                    st[(i, "")] = self.ev(il, st)
+        elif k == "ReturnStmt":
+            for c in kids(a):
+                self.ev(c, st)
+        elif k in ("BreakStmt", "ContinueStmt", "GotoStmt", "DoHead", "NullStmt"):
+            pass
+        else:
+            self.ev(a, st)
+
+    def successors(self, node, st):
+        """[(successor, state)]; st is consumed"""
+        if node.kind == "stmt":
+            self.exec_stmt(node.ast, st)
+            return [(s, st if j == 0 else dict(st)) for j, (s, _) in enumerate(node.succ)]
+        if node.kind in ("cond", "switch"):
+            c = getattr(node, "cond", None)
+            if c is not None and not c.get("kind"):
+                c = None
+            v = 1 if c is None else self.ev(c, st)
+            if _is_unk(v):
+                if v[2] or self.valuable(v[1]):
+                    self.undecided(v, c)
+                outs = [s for s, _ in node.succ]
+            elif node.kind == "cond":
+                outs = [s for s, lab in node.succ if bool(lab) == bool(v)]
+            else:
+                outs = [s for s, lab in node.succ if isinstance(lab, tuple) and lab[1] == v] or \
+                       [s for s, lab in node.succ if lab in ("default", "nodefault")]
+            return [(s, st if j == 0 else dict(st)) for j, s in enumerate(outs)]
+        return [(s, st) for s, _ in node.succ]
+
+    def run(self):
+        """(index value, state at the lookup) of the first arrival at the lookup with an index outside
+        0..P-1, or None"""
+        work = [(self.g.entry, {})]
+        seen = set()
+        qi = 0
+        while qi < len(work):
+            node, st = work[qi]
+            qi += 1
+            if qi > self.BUDGET:
+                self.stuck.append("the execution does not end within %d steps" % self.BUDGET)
+                return None
+            sig = (node.id, frozenset(st.items()))
+            if sig in seen:
+                continue
+            seen.add(sig)
+            try:
+                if node is self.use_node:
+                    iv = self.ev(self.use_expr, dict(st))
+                    if _is_unk(iv):
+                        self.undecided(iv, self.use_expr, "the lookup index")
+                    if not 0 <= iv < self.P:
+                        return iv, st
+                work.extend(self.successors(node, st))
+            except _Stuck as e:
+                ahead = self.S["ahead"].get(node.id)
+                if ahead is None:
+                    ahead = self.S["ahead"][node.id] = node is self.use_node or self.use_node.id in self.g.reach(node, labels_skip=())
+                if ahead and str(e) not in self.stuck:
+                    self.stuck.append(str(e))
+        return None
+
+
+def witness_candidates(keys, P):
+    """assignments of frame numbers to the inputs `keys` (in the order they were asked for): values around
+    the period, around the end of the hyperframe, and -- for every further input -- values a few frames
+    after / before the previous one (frame numbers of one function are usually compared with each other)"""
+    basev = [2 * P + 1, P, P - 1, 1000 * P, HYPERFRAME - 1, 0, 1, HYPERFRAME - 2]
+    out = [()]
+    for _k in keys:
+        nxt = []
+        for pre in out:
+            vals = list(basev)
+            if pre:
+                vals = [(pre[-1] + d) % HYPERFRAME for d in (2, -2, 1, -1, P, -P, 3, -3, 0)] + vals
+            seen = set()
+            for v in vals:
+                if v not in seen:
+                    seen.add(v)
+                    nxt.append(pre + (v,))
+        out = nxt
+    return [dict(zip(keys, c)) for c in out]
+
+
+def lookup_witness(tu, f, g, loc, use, idx, base, periods):
+    """Search for a proof that the lookup <base>->frames[idx] can leave the table: a layout period P and
+    frame numbers for the function's 32-bit unsigned inputs with which the function, executed exactly
+    (WitnessRun), arrives at the lookup with an index outside 0..P-1.
+    -> ([(P, index, {input: value}, {local read by the index: value at the lookup})], reasons why paths were given up)."""
+    use_node = g.node_of(use)
+    host = use_node.cond if use_node.kind in ("cond", "switch") else use_node.ast
+    if host is None or not any(x is use for x in walk(host)):
+        raise AnalysisError("%s(): the frame lookup is not part of the CFG node it was mapped to; unclassifiable" % f.get("name"))
+    child, par = use, tu.parent.get(id(use))
+    while child is not host and par is not None:
+        if (kind(par) == "ConditionalOperator" and kids(par)[0] is not child) or \
+                (kind(par) == "BinaryOperator" and par.get("opcode") in ("&&", "||") and kids(par)[0] is not child):
+            raise AnalysisError("%s(): the frame lookup with index `%s` is evaluated conditionally inside its statement and the "
+                                "index is not a remainder expression; unclassifiable" % (f.get("name"), ctext(idx)[:50]))
+        child, par = par, tu.parent.get(id(par))
+    inside = {id(x) for x in walk(idx)}
+    reads = {ctext(x) for x in walk(idx) if kind(x) in ("DeclRefExpr", "MemberExpr")}
+    for x in walk(host):
+        tgt = None
+        if (kind(x) == "BinaryOperator" and x.get("opcode") == "=") or kind(x) == "CompoundAssignOperator" or \
+                (kind(x) == "UnaryOperator" and x.get("opcode") in ("++", "--")):
+            tgt = kids(x)[0]
+        if tgt is not None and id(x) not in inside and ctext(strip(tgt)) in reads:
+            raise AnalysisError("%s(): `%s` is modified in the statement of the frame lookup outside the index; unclassifiable" % (
+                f.get("name"), ctext(strip(tgt))[:40]))
+    escaped = set()
+    for n in walk(tu.body(f)):
+        if kind(n) == "UnaryOperator" and n.get("opcode") == "&":
+            par = tu.parent.get(id(n))
+            while par is not None and kind(par) in ("ImplicitCastExpr", "ParenExpr", "CStyleCastExpr"):
+                par = tu.parent.get(id(par))
+            if kind(par) == "CallExpr":
+                continue        # handed to a call: unknown from the call on (WitnessRun.havoc)
+            x = strip(kids(n)[0])
+            while kind(x) in ("MemberExpr", "ArraySubscriptExpr") and kids(x) and not x.get("isArrow"):
+                x = strip(kids(x)[0])
+            i = Locals._ref(x) if kind(x) == "DeclRefExpr" else None
+            if i is not None and i in loc.decl:
+                escaped.add(i)
+    shared = {"constlike": {}, "key": {}, "period": {}, "itype": {}, "escaped": escaped, "ahead": {}}
+    keys = []
+    reasons = []
+    for _round in range(5):
+        need = None
+        found = []
+        reasons = []
+        for P in periods:
+            for val in witness_candidates(keys, P):
+                wr = WitnessRun(tu, f, g, loc, base, P, val, use_node, idx, shared)
+                try:
+                    r = wr.run()
+                except _Need as e:
+                    need = e.keys
+                    break
+                for s in wr.stuck:
+                    if s not in reasons:
+                        reasons.append(s)
+                if r is not None:
+                    # values of the locals the index reads, at the lookup
+                    at = {}
+                    for x in walk(idx):
+                        lp = wr.local_path(x) if kind(x) in ("DeclRefExpr", "MemberExpr") else None
+                        v = r[1].get(lp) if lp is not None else None
+                        if isinstance(v, int) and not isinstance(v, bool):
+                            at[ctext(x)] = v
+                    found.append((P, r[0], val, at))
+                    break
+            if need is not None:
+                break
+        if need is None:
+            return found, reasons
+        keys = keys + [k for k in need if k not in keys]
+        if len(keys) > 3:
+            return [], ["more than three frame-number inputs (%s) decide whether / where the lookup happens" % ", ".join(keys)]
+    return [], reasons
+
+
+def unreduced_index(L, rule, relfile, tu, fname, f, g, loc, use, idx, e, base, periods, through):
+    """C11.R1, clause `no frame lookup for any frame number leaves the table`, for a lookup
+    <base>->frames[idx] whose index is an expression that is not reduced modulo the period at the top
+    level (`fn + 1 % period` from an unparenthesised macro argument, `fn % period + 1`, `fn`, ...).
+    Decided by value, not by shape:
+      holds     interval evaluation (index_interval): for every layout period P the index expression --
+                lvalues taking the whole range of their C type -- stays inside 0..P-1;
+      violated  a witness (lookup_witness): a period P and concrete frame numbers 0..HYPERFRAME-1 for the
+                function's inputs with which the exact execution of the function reaches the lookup with
+                an index >= P (or < 0).  A guarded or otherwise equivalent rewrite of the remainder has no
+                such witness;
+      neither   no verdict (AnalysisError)."""
+    key = "frame lookup in the layout `%s`%s: the index stays within 0..<that layout>->period - 1 for every frame number " \
+          "of the hyperframe" % (base, through)
+    want = "0 <= index < period for the periods %s" % ",".join(str(p) for p in periods)
+    shown = ctext(e)[:60]
+    if pure(idx):
+        ivs = {P: index_interval(tu, loc, idx, base, P) for P in periods}
+        if all(iv is not None and 0 <= iv[0] and iv[1] < P for P, iv in ivs.items()):
+            L.ob(rule, relfile, fname, key, want, want, True, tu.line(use),
+                 note="index `%s`: interval %s" % (shown, ", ".join("period %d: %d..%d" % (P, ivs[P][0], ivs[P][1]) for P in periods[:3])))
+            return True, want, "bounded"
+    found, reasons = lookup_witness(tu, f, g, loc, use, idx, base, periods)
+    if found:
+        txt = "; ".join("period %d: index %d%s when the function is entered with %s" % (
+            P, iv, "".join(" (%s = %d)" % kv for kv in sorted(at.items())[:2]),
+            ", ".join("%s = %d" % (k, v) for k, v in sorted(val.items())) or "any input") for P, iv, val, at in found[:3])
+        L.ob(rule, relfile, fname, key, want, "index `%s` is not reduced modulo the period -- %s" % (shown, txt), False, tu.line(use))
+        return False, txt, "unreduced"
+    raise AnalysisError("%s(): frame lookup index `%s` is not a remainder expression and can neither be bounded by interval "
+                        "evaluation nor shown to leave the table by a witness%s; unclassifiable" % (
+                            fname, shown, " (%s)" % "; ".join(reasons[:2]) if reasons else ""))
+
+
 # =========================================================== trxcon tables
 
 class Trxcon:
@@ -1196,7 +1930,8 @@ def classify_index(L, rule, relfile, tu, fname, f, g, loc, use, idx, base, perio
              "frame lookup in the layout `%s`%s: a constant index lies inside the table of every layout" % (base, through),
              "0 <= index < %d" % min(periods), found, ok, tu.line(use))
         return ok, found, "const"
-    raise AnalysisError("%s(): frame lookup index `%s` is not a remainder expression; unclassifiable" % (fname, ctext(e)[:60]))
+    # neither a remainder nor a constant nor an incrementally kept local: bound the expression itself
+    return unreduced_index(L, rule, relfile, tu, fname, f, g, loc, use, idx, e, base, periods, through)
 
 
 def frames_uses(tu, fname, f, loc):
@@ -1281,6 +2016,18 @@ def lookup_sites(L, tu, relfile, periods, rule="C11.R1"):
             else:
                 raise AnalysisError("%s(): the frames pointer of a layout is used outside a table lookup (%s); unclassifiable" % (
                     fname, kp))
+            # the address the lookup yields must not be moved on in the same expression (`frames + off + 1`,
+            # `&frames[off] + 1`): the index classified below would not be the one that is used
+            q, qp = p, tu.parent.get(id(p))
+            while qp is not None and (kind(qp) in ("ImplicitCastExpr", "ParenExpr", "CStyleCastExpr") or
+                                      (kind(qp) == "UnaryOperator" and qp.get("opcode") == "&")):
+                q, qp = qp, tu.parent.get(id(qp))
+            if qp is not None and ((kind(qp) == "BinaryOperator" and qp.get("opcode") in ("+", "-")) or
+                                   (kind(qp) == "CompoundAssignOperator" and kids(qp)[0] is not q) or
+                                   (kind(qp) == "ArraySubscriptExpr" and kp != "ArraySubscriptExpr") or
+                                   (kind(qp) == "ArraySubscriptExpr" and kind(q) == "UnaryOperator")):
+                raise AnalysisError("%s(): further pointer arithmetic on the result of a frame lookup (%s); unclassifiable" % (
+                    fname, ctext(qp)[:60]))
             base = rtext(loc, lay)
             # is the layout one of the function's own (never reassigned) parameters?
             hp = None
